@@ -38,8 +38,17 @@ def _el(sp, lst):
     return S.from_flat(sp, a)
 
 
+# elements handed to the factories as data term / translation during the current build: the
+# "three-way alias" prox(g, out=g) (a solver started at its own data element) is tried on them
+_DATA_ELEMS = []
+
+
 def _g(sp, o, pos=False):
-    return None if not o.get('g') else _el(sp, _GP if pos else _G)
+    if not o.get('g'):
+        return None
+    g = _el(sp, _GP if pos else _G)
+    _DATA_ELEMS.append(g)
+    return g
 
 
 def _box(sp, o):
@@ -118,7 +127,7 @@ def _unitary(sp):
 
 WRAP = {
     'proximal_translation': (
-        [{}], lambda sp, b, o: PO.proximal_translation(_base(sp, b), _el(sp, _G))),
+        [{}], lambda sp, b, o: PO.proximal_translation(_base(sp, b), _data(_el(sp, _G)))),
     'proximal_arg_scaling': (
         [{'s': 2.0}, {'s': -0.5}, {'s': 0}, {'s': 'array'}],
         lambda sp, b, o: PO.proximal_arg_scaling(
@@ -133,6 +142,11 @@ WRAP = {
         [{'mu': 1.0}], lambda sp, b, o: PO.proximal_composition(_base(sp, b), _unitary(sp),
                                                                  o['mu'])),
 }
+
+
+def _data(e):
+    _DATA_ELEMS.append(e)
+    return e
 
 
 def _sigma(sp, kind, val):
@@ -332,7 +346,7 @@ def _site(cfg):
 def _derived(f, der, sp):
     y = _el(sp, _G)
     if der == 'translated':
-        return f.translated(y)
+        return f.translated(_data(y))
     if der == 'leftscal':
         return 2.0 * f
     if der == 'rightscal':
@@ -435,6 +449,7 @@ def run(cfg):
     viol = []
     if cfg['kind'] == 'lincomb':
         return _run_lincomb(cfg, site)
+    del _DATA_ELEMS[:]
     try:
         op, sp = _build(cfg)
     except Exception as e:
@@ -481,6 +496,30 @@ def run(cfg):
         evals += 2
         sigs.add(str(np.sign(ref - x0.real).astype(int).tolist()) if not S.is_complex(sp)
                  else 'c')
+    # three-way alias: the evaluation point IS the data / translation element given to the factory
+    # (done last: it overwrites that element)
+    for g in list(_DATA_ELEMS):
+        if not hasattr(g, 'space') or g.space != sp:
+            continue
+        try:
+            ref = S.to_flat(op(g.copy()))
+        except Exception:
+            skipped += 1
+            continue
+        try:
+            r = op(g, out=g)
+            got = S.to_flat(g)
+            evals += 2
+            if r is not g:
+                first.setdefault('returned_object_is_not_out', 'x is the data element')
+            if not _close(got, ref, dt):
+                first.setdefault('aliased_call_at_data_element_differs',
+                                 'prox(g) = %s but prox(g, out=g) with g the data/translation '
+                                 'element itself left %s' % (ref.tolist(), got.tolist()))
+        except Exception as e:
+            first.setdefault('aliased_call_raises:' + type(e).__name__,
+                             'x is the data element: %r' % (e,))
+        break
     for sym, det in first.items():
         viol.append({'site': site, 'symptom': sym, 'detail': det})
     return {'evals': evals, 'viol': viol, 'skipped': skipped,
